@@ -1,6 +1,7 @@
 """C08 - call resolution: facts first, exact arity, load order, late binding."""
 from ..eng import EngineModel
 from .. import rules_query as rq
+from .. import rules_extra as rx
 
 
 def check(repo, rep, tier):
@@ -21,3 +22,9 @@ def check(repo, rep, tier):
     rq.rule_combine_order(em, rep, 'C08.Q5')
     rq.rule_atomic_load(em, rep, 'C08.Q6')
     rq.rule_api_unreachable(em, rep, 'C08.Q8')
+    rx.rule_derived_tables_follow(em, rep, 'C08.Q9')
+    rx.rule_lookup_confined(em, rep, 'C08.Q10')
+    rx.rule_lookups_agree(em, rep, 'C08.Q11')
+    from .. import rules_compile as rc
+    from .. import rules_clause as rcl
+    rcl.rule_calls_late_bound(rc.CompilerModel(repo), rep, 'C08.Q7')
